@@ -145,6 +145,10 @@ type Exec struct {
 	opaqueSeq int
 	memo      map[string]Value
 	known     map[*Term]bool
+	stubNested bool
+	snaps     []ArrExpr
+	pnotes    []string
+	skipIntrinsic *ssa.Function
 	ranges    map[*Term]rng
 	rmemo     map[*Term]rng
 
@@ -203,6 +207,18 @@ func (e *Exec) unsupported(format string, a ...interface{}) {
 
 func (e *Exec) note(format string, a ...interface{}) {
 	e.notes = append(e.notes, fmt.Sprintf(format, a...))
+	e.pnotes = append(e.pnotes, fmt.Sprintf(format, a...))
+}
+
+func (e *Exec) pathNotes() string {
+	if len(e.pnotes) == 0 {
+		return ""
+	}
+	n := e.pnotes
+	if len(n) > 6 {
+		n = n[len(n)-6:]
+	}
+	return " [" + strings.Join(n, "; ") + "]"
 }
 
 // RunHarness explores all paths of fn (a niladic function).
@@ -228,7 +244,7 @@ func (e *Exec) RunHarness(fn *ssa.Function) *HarnessResult {
 		}
 		res.Steps += e.steps
 		if e.Cfg.Debug {
-			fmt.Fprintf(os.Stderr, "  path %d: %s %s (trail %d, steps %d)\n", res.Paths, out.kind, out.detail, len(e.trail), e.steps)
+			fmt.Fprintf(os.Stderr, "  path %d: %s %s (trail %d, steps %d) q=%d hard=%d t=%.1fs terms=%d\n", res.Paths, out.kind, out.detail, len(e.trail), e.steps, e.solver.Queries, e.solver.HardQueries, e.solver.Time.Seconds(), e.tb.NumTerms())
 		}
 		if len(res.Inconclusive) > 20 {
 			break
@@ -273,6 +289,10 @@ func (e *Exec) resetPath() {
 	e.opaqueSeq = 0
 	e.memo = map[string]Value{}
 	e.known = map[*Term]bool{}
+	e.stubNested = false
+	e.snaps = nil
+	e.pnotes = nil
+	e.skipIntrinsic = nil
 	e.ranges = map[*Term]rng{}
 	e.rmemo = map[*Term]rng{}
 }
@@ -488,7 +508,7 @@ func (e *Exec) assertProp(id string, cond *Term) {
 	}
 	e.solver.Push()
 	e.solver.Assert(e.tb.Not(cond))
-	r := e.solver.CheckAssert()
+	r := e.solver.CheckAssert(id)
 	switch r {
 	case Unsat:
 		e.solver.Pop()
@@ -497,7 +517,7 @@ func (e *Exec) assertProp(id string, cond *Term) {
 			e.res.Samples = append(e.res.Samples, fmt.Sprintf("%s/%s path=%d pc=%d literals: unsat", e.res.Name, id, e.res.Paths, len(e.trail)))
 		}
 	case Sat:
-		v := &Violation{Harness: e.res.Name, AssertID: id, Kind: "assert", Detail: e.tb.Show(cond), Path: e.res.Paths}
+		v := &Violation{Harness: e.res.Name, AssertID: id, Kind: "assert", Detail: e.tb.Show(cond) + e.pathNotes(), Path: e.res.Paths}
 		v.Model = e.extractModel()
 		e.solver.Pop()
 		e.res.Violations = append(e.res.Violations, v)
@@ -512,7 +532,7 @@ func (e *Exec) assertProp(id string, cond *Term) {
 }
 
 func (e *Exec) violation(id string, cond *Term) {
-	v := &Violation{Harness: e.res.Name, AssertID: id, Kind: "assert", Detail: e.tb.Show(cond), Path: e.res.Paths}
+	v := &Violation{Harness: e.res.Name, AssertID: id, Kind: "assert", Detail: e.tb.Show(cond) + e.pathNotes(), Path: e.res.Paths}
 	// need a model of the path condition itself
 	r := e.solver.Check()
 	if r == Sat {
@@ -615,13 +635,20 @@ func (e *Exec) concretize(t *Term, what string) uint64 {
 
 // ---------- function calls ----------
 
+func (e *Exec) callNoIntrinsic(fn *ssa.Function, args []Value) Value {
+	e.skipIntrinsic = fn
+	return e.call(fn, args, nil)
+}
+
 func (e *Exec) call(fn *ssa.Function, args []Value, free []Value) Value {
 	if e.res != nil {
 		if fn.Pkg != nil || fn.Origin() != nil {
 			e.res.Funcs[fn.String()] = true
 		}
 	}
-	if in := e.lookupIntrinsic(fn); in != nil {
+	if e.skipIntrinsic == fn {
+		e.skipIntrinsic = nil
+	} else if in := e.lookupIntrinsic(fn); in != nil {
 		return in(e, args, nil)
 	}
 	if fn.Blocks == nil {
@@ -910,6 +937,9 @@ func (e *Exec) ensureInit(pkg *ssa.Package) {
 	// run in init mode with a private global map
 	savedGlobals, savedStack, savedDepth, savedSteps := e.globals, e.stack, e.depth, e.steps
 	savedRes := e.res
+	savedTrack := e.track
+	e.track = false
+	defer func() { e.track = savedTrack }()
 	e.res = &HarnessResult{Reached: map[string]int{}, Outcomes: map[string]int{}, Funcs: map[string]bool{}}
 	e.globals = map[*ssa.Global]*Obj{}
 	e.initMode = true
